@@ -216,7 +216,7 @@ def r1_offset_exactly_once(ctx):
         fi = ix.func(*key)
         got = set(fl.counts[key])
         ctx.ob(fi.where, f"{what}: every format error leaving {key[1]} has had the chunk's line offset added exactly once", got == want,
-               f"possible numbers of offset additions: {sorted(got)} (0 = chunk-relative line number escapes, 2 = offset added twice)", key=f"C15-R1|{key[1]}|count")
+               f"possible numbers of offset additions: {sorted(got)} (0 = chunk-relative line number escapes, 2 = offset added twice)", key=f"C15-R1|{key[1]}|count", definite=True)
     whole = (RD, "NpDataclassReader.read")
     got = set(fl.counts[whole])
     ctx.ob(ix.func(*whole).where, "whole-file read: line numbers are already global, no offset is added", got <= {0}, str(sorted(got)), key="C15-R1|read|count")
@@ -277,7 +277,7 @@ def r1_offset_exactly_once(ctx):
     ok = len(snap) == 1 and len(call) == 1 and u(snap[0].ast.value) == "self._reader.n_lines_read" and g.dominates(snap[0], call[0]) and g.path([call[0]], [snap[0]]) is None
     ctx.ob(dr.where, "the line count is snapshotted before the chunk is read (it is the count *before* this chunk)", ok, "", key="C15-R1|snapshot-first")
     in_try = any(x is call[0].ast for t in ast.walk(dr.node) if isinstance(t, ast.Try) for b in t.body for x in ast.walk(b)) if call else True
-    ctx.ob(dr.where, "the raw chunk read (which adds the offset itself) is outside this function's handler", not in_try, "", key="C15-R1|reader-outside-try")
+    ctx.ob(dr.where, "the raw chunk read (which adds the offset itself) is outside this function's handler", not in_try, "", key="C15-R1|reader-outside-try", definite=True)
     # lazy offset sources
     sites = []
     for key, fi in fl.funcs.items():
